@@ -1,6 +1,7 @@
 import SkyllhModel.Proto
 import SkyllhModel.Model.Params
 import SkyllhModel.Model.ParamsHeap
+import SkyllhModel.Model.ParamsR7
 open Proto Params
 
 /-  Stateful driver for property C04 (state = stack of ParameterSet / ParameterModelMapper models,
@@ -26,6 +27,13 @@ open Proto Params
       pview <gflp> <sel N|-|i,j>           -> mapper views
       pview2 <gflp> <names> <model idxs>   -> gpidx consumers, floating mask of local names, NaN fill,
                                               wrong-length vectors, int32 index array, dict by model name
+      peq <name/ini/lo/hi/fx;...|->        -> name=<(p==q)(q==p) per constructible q>,...  (Parameter.__eq__)
+      pview3 <gflp> <names> <signed idxs> <i/j,...>
+                                           -> record array for a signed int32 index array (numpy wraps), model dict by
+                                              signed int (range check), get_model_param_name(i, j) (wraps), counts,
+                                              get_gflp_idx per name, create_global_floating_params_dict
+    (`pview`: `sel` / `tab` go through `srcModelIdxsChecked` / `srcParamsRecarrayChecked`: a selected model that
+     is no source model is a TypeError)
 -/
 
 inductive St
@@ -147,10 +155,10 @@ def fPMM (s : PMM Float) (g : List Float) (sel : Option (List Nat)) : String :=
     (i, fields.map (fun f => Spec.cell f s.gps.params (s.mpn[i]?.getD []) 0 0 g)))
   String.intercalate " " ([
     "src:" ++ fListD toString (s.srcModelIdxs none),
-    "sel:" ++ fListD toString idxs,
+    "sel:" ++ fEx (fListD toString) (s.srcModelIdxsChecked sel),
     "fields:" ++ sl fields,
     "mpn:" ++ sl' ";" (s.mpn.map (fun row => sl (row.map (fun o => o.getD "N")))),
-    "tab:" ++ fEx (fun t => fRows t.1 t.2) (s.srcParamsRecarray g sel),
+    "tab:" ++ fEx (fun t => fRows t.1 t.2) (s.srcParamsRecarrayChecked g sel),
     "tabspec:" ++ fRows fields specRows,
     "gd:" ++ fDict (s.gps.views [] g).paramsDict ] ++
     (List.range s.nModels).map (fun i =>
@@ -193,6 +201,27 @@ def fPMM2 (s : PMM Float) (g : List Float) (names : List String) (idxs : List Na
     "tabidx:" ++ tabOf (s.srcParamsRecarrayIdx g idxs) ] ++
     s.models.map (fun m => s!"mdn_{m.1}:" ++ fEx fDict (s.modelParamsDictByName g m.1)) ++
     [ "mdn_zz:" ++ fEx fDict (s.modelParamsDictByName g "zz") ])
+
+def fPeq (s : PSet Float) (others : String) : String :=
+  let qs := createSome (if others == "-" then [] else (others.splitOn ";").map pArgs1)
+  sl ((s.params.zip (s.eqTable qs)).map (fun pr =>
+    pr.1.name ++ "=" ++ (if pr.2.isEmpty then "_" else String.join (pr.2.map (fun ab => fB ab.1 ++ fB ab.2)))))
+
+def fRowsI (fields : List String) (rows : List (Int × List (Option (Float × Int)))) : String :=
+  sl' ";" (rows.map (fun r =>
+    String.intercalate "/" (toString r.1 :: (fields.zip r.2).map (fun fc => s!"{fc.1}={fCell fc.2}"))))
+
+def fPMM3 (s : PMM Float) (g : List Float) (names : List String) (ii : List Int) (pairs : List (Int × Int)) : String :=
+  let c := s.counts
+  String.intercalate " " [
+    "tabidxs:" ++ fEx (fun t => fRowsI t.1 t.2) (s.srcParamsRecarrayIdxInt g ii),
+    "sgnmd:" ++ sl (ii.map (fun i => toString i ++ "=" ++
+        (match s.modelParamsDictInt g i with | .ok d => (if d.isEmpty then "e" else "d") | .error _ => "E"))),
+    "mpnw:" ++ sl (pairs.map (fun ij => s!"{ij.1}/{ij.2}=" ++
+        (match s.getModelParamName ij.1 ij.2 with | .ok (some a) => a | .ok none => "N" | .error _ => "E"))),
+    s!"counts:{c.1}/{c.2.1}/{c.2.2.1}/{c.2.2.2}",
+    "gflp:" ++ sl (names.map (fun n => n ++ "=" ++ (match s.gflpIdx n with | .ok k => toString k | .error _ => "K"))),
+    "gfd:" ++ fDict (s.globalFloatingParamsDict g) ]
 
 def fProbe (ps : List (Param Float)) (rows : List (List Bool)) : String :=
   sl ((ps.zip rows).map (fun pr => pr.1.name ++ "=" ++ String.join (pr.2.map (fun (b : Bool) => if b then "A" else "R"))))
@@ -241,6 +270,11 @@ def stepLine (stack : List St) (line : String) : List St × String :=
   | ["randini", u], St.ps s :: _ => (stack, fEx (fun l => sl (l.map fO)) (s.randomInitials (pList pF u)))
   | ["randini", u], St.pmm s :: _ => (stack, fEx (fun l => sl (l.map fO)) (s.gps.randomInitials (pList pF u)))
   | ["pview", g, sel], St.pmm s :: _ => (stack, fPMM s (pList pF g) (pSel sel))
+  | ["peq", others], St.ps s :: _ => (stack, fPeq s others)
+  | ["peq", others], St.pmm s :: _ => (stack, fPeq s.gps others)
+  | ["pview3", g, names, ii, pairs], St.pmm s :: _ =>
+      (stack, fPMM3 s (pList pF g) (pList id names) (pList pI ii)
+        (pList (fun t => match t.splitOn "/" with | [a, b] => (pI a, pI b) | _ => (0, 0)) pairs))
   | ["pview2", g, names, idxs], St.pmm s :: _ =>
       (stack, fPMM2 s (pList pF g) (pList id names) (pList pN idxs))
   | ["chfixraw", n, v], St.ps s :: rest =>
